@@ -75,6 +75,8 @@ def handleIO (line : String) : IO String := do
   | "pyroundtrip" :: rest => pyroundtripLine (" ".intercalate rest)
   | "c11agree" :: rest => c11agreeLine (" ".intercalate rest)
   | "gobuild" :: rest => gobuildLine (" ".intercalate rest)
+  | "goconvert" :: rest => goconvertLine (" ".intercalate rest)
+  | "pybuild" :: rest => pybuildLine (" ".intercalate rest)
   | _ => return handle line
 
 partial def loop (h : IO.FS.Stream) (out : IO.FS.Stream) : IO Unit := do
